@@ -25,7 +25,8 @@ RULE = ('Generated Yahoo-format CSV files (1-2 symbols with different first date
         'after t, or t precedes the first bar, or the answer needed a forward fill; distinct = distinct case JSON.'
         ' Round-5 reach: a source quoting a spread (ask = 1.25 x bid) behind the handler (handler ask == source ask, handler bid == source bid); a fresh source asked about several symbols at instants that jump back and forth in time (second-level offsets so that memoised answers are not reused).'
         " Round-10 reach: the first source of a case answers fresh instants again after every other source of the case and a differently priced decoy directory for the same symbols were built; a sixth of the files carry whole-number cells (no decimal point), some of ten digits."
-        " Round-11 reach: a fresh source whose first requests are closing-price range queries (with and without `adjusted`) is priced through a handler afterwards, at instants +-0.4 s, +-0.6 s and +-1 us around the generated ones.")
+        " Round-11 reach: a fresh source whose first requests are closing-price range queries (with and without `adjusted`) is priced through a handler afterwards, at instants +-0.4 s, +-0.6 s and +-1 us around the generated ones."
+        " Round-12 reach: bars that settle at exactly zero after a positive open (0/0 adjustment: the open is a missing value).")
 ASSUMPTIONS = [
     'well-formed CSV files with a Date column and unique dates (duplicate dates and header-only files are rejected by '
     'the loader and are not in the domain)',
@@ -40,7 +41,8 @@ def observations(rows, adjust):
     for y, m, d, o, c, a in sorted(rows, key=lambda r: (r[0], r[1], r[2])):
         dt = D.date(y, m, d)
         if adjust:
-            op = None if (o is None or c is None or a is None) else (a / c) * o
+            # (a close of exactly zero carries no adjustment ratio: 0/0 is undefined, so that open is a missing value)
+            op = None if (o is None or c is None or a is None or c == 0) else (a / c) * o
             cl = a
         else:
             op, cl = o, c
@@ -354,9 +356,14 @@ def cases(draw):
         rows_ = syms[names[0]]
         k_ = draw(st.integers(0, len(rows_) - 1))
         if rows_[k_][4] is not None:
-            v_ = -draw(st.sampled_from([37.63, 0.5, 2.0]))
-            rows_[k_][3:] = [v_ if rows_[k_][3] is not None else None, v_, v_]
-            flags.append('negative_settlement')
+            v_ = -draw(st.sampled_from([37.63, 0.5, 2.0, 0.0, 0.0]))
+            if v_ == 0:
+                # ... or at exactly zero, after opening at a positive price
+                rows_[k_][3:] = [rows_[k_][3], 0.0, 0.0]
+                flags.append('zero_settlement')
+            else:
+                rows_[k_][3:] = [v_ if rows_[k_][3] is not None else None, v_, v_]
+                flags.append('negative_settlement')
     if len(names) == 2 and len(syms[names[0]]) >= 4 and draw(st.sampled_from([False, False, True])):
         # the second symbol trades as many days as the first, from the same first to the same last date - but not
         # on the same days in between
